@@ -11,8 +11,6 @@
 static inline int
 version_parse(const char *version, int tuple[3])
 {
-	char buf[64];
-
 	if (version == NULL) {
 		err("version is NULL");
 		return -1;
@@ -23,37 +21,23 @@ version_parse(const char *version, int tuple[3])
 		return -1;
 	}
 
-	strcpy(buf, version);
-
-	char *str = buf;
+	const char *p = version;
 	char *which[] = { "major", "minor", "patch" };
-	char *delim[] = { ".", ".", ".-" };
-	char *save = NULL;
 
 	for (int i = 0; i < 3; i++) {
-		char *num = strtok_r(str, delim[i], &save);
-
-		/* Subsequent calls need NULL as string */
-		str = NULL;
-
-		if (num == NULL) {
-			err("missing %s number: %s",
+		/* Only digits: strtol() would also take blanks and a sign */
+		if (*p < '0' || *p > '9') {
+			err("failed to parse %s number: %s",
 					which[i], version);
 			return -1;
 		}
 
 		errno = 0;
 		char *endptr = NULL;
-		long v = strtol(num, &endptr, 10);
+		long v = strtol(p, &endptr, 10);
 
-		if (errno != 0 || endptr == num || endptr[0] != '\0') {
+		if (errno != 0) {
 			err("failed to parse %s number: %s",
-					which[i], version);
-			return -1;
-		}
-
-		if (v < 0) {
-			err("invalid negative %s number: %s",
 					which[i], version);
 			return -1;
 		}
@@ -66,6 +50,23 @@ version_parse(const char *version, int tuple[3])
 		}
 
 		tuple[i] = (int) v;
+		p = endptr;
+
+		/* Exactly one dot between the numbers */
+		if (i < 2) {
+			if (*p != '.') {
+				err("missing %s number: %s",
+						which[i + 1], version);
+				return -1;
+			}
+			p++;
+		}
+	}
+
+	/* Only a suffix like "-rc1" can follow the patch number */
+	if (*p != '\0' && *p != '-') {
+		err("failed to parse patch number: %s", version);
+		return -1;
 	}
 
 	return 0;
